@@ -542,8 +542,9 @@ def observe_net(case):
 
 def observe_shape(case):
     s = case["s"]
-    sh = G.make_shape(s) if case.get("via") is None else G.make_shape_via(s, case["via"])
-    ob = {"contains": [guarded(lambda: bool(sh.contains_point(np.array(p, dtype=float)))) for p in case["pts"]],
+    trace = []
+    sh = G.make_shape(s) if case.get("via") is None else G.make_shape_via(s, case["via"], trace)
+    ob = {"via_trace": trace, "contains": [guarded(lambda: bool(sh.contains_point(np.array(p, dtype=float)))) for p in case["pts"]],
           "members": []}
     for m, msh in zip(G.prims(s), sh.shapes if s["k"] == "group" else [sh]):
         geo = msh.shapely_object
@@ -902,6 +903,50 @@ def corr(ctx, cases):
     ctx.log(f"corr cases={len(terms)} disagree={len(bad)} coq_errors={len(errors)} near_boundary_excluded={near}")
 
 
+def cache_terms(case):
+    """Corr.C06Cache terms of a shape case whose object was reached through its setters (one per primitive object)"""
+    out = []
+    if case["op"] != "shape" or case.get("via") is None:
+        return out
+    for rec in observe(case).get("via_trace", []):
+        if any(f is None for st in rec["steps"] for f in st[1:3]):
+            return None     # a cache attribute is gone (renamed): the model's flags cannot be observed
+        steps = qlist([f"({op}, {{| o_verts := {qb(v)}; o_geom := {qb(g)}; o_fresh := {qb(fr)} |}})"
+                       for op, v, g, fr in rec["steps"]])
+        if rec["k"] == "rect":
+            out.append(f"CRectHist {rec['init'][0]} {rec['init'][1]} {rec['init'][2]} {rec['init'][3]} {steps}")
+        elif rec["k"] == "circ":
+            out.append(f"CCircHist {rec['init'][0]} {rec['init'][1]} {steps}")
+        else:
+            out.append(f"CPolyHist [{rec['init'][0]}] {steps}")
+    return out
+
+
+def corr_cache(ctx, cases):
+    terms, owner, unobservable = [], [], 0
+    for c in cases:
+        ts = cache_terms(c)
+        if ts is None:
+            unobservable += 1
+            continue
+        for t in ts:
+            terms.append(t)
+            owner.append(c)
+    imports = ("From Coq Require Import ZArith List Bool.\nImport ListNotations.\n"
+               "From CR Require Import Model.ShapeCache Corr.C06Cache.\nOpen Scope Z_scope.\n")
+    bad, errors = ctx.coq_bad_indices("corrcache", imports, "", terms, "check", shard=300)
+    ctx.coverage["correspondence_setter_histories"] = len(terms)
+    if unobservable:
+        ctx.corr_break("Corr.C06Cache.check: the cache attributes of Rectangle / Circle / Polygon are not observable "
+                       "(renamed or removed)", {"cases": unobservable})
+    for e in errors:
+        ctx.corr_break("Corr.C06Cache.check (coqc failed)", e)
+    for i in bad:
+        ctx.corr_break("Corr.C06Cache.check: Model/ShapeCache.v vs Rectangle / Circle / Polygon setter histories",
+                       {"case": owner[i], "term": terms[i][:1500]})
+    ctx.log(f"corr setter histories={len(terms)} disagree={len(bad)} coq_errors={len(errors)}")
+
+
 def run(ctx):
     ctx.trusted = ["Coq 8.16.1 kernel + vm_compute (no native_compute)",
                    "axioms: none (Print Assumptions: Closed under the global context for every theorem)",
@@ -910,11 +955,14 @@ def run(ctx):
                    "the correspondence relation coq/Corr/C06.v evaluated on every run",
                    "GEOS / shapely predicates (intersects, dwithin, STRtree.query completeness, buffer): the theorems treat "
                    "polygon/shape intersection as an arbitrary predicate; pip = GEOS on simple rings is correspondence only",
+                   "hand-written model coq/Model/ShapeCache.v of the Rectangle / Circle / Polygon setters and the geometry they "
+                   "cache (shape.py, after fix: 26019d9 f1d0f2d 81f16ab), tied to the code by coq/Corr/C06Cache.v on setter / "
+                   "query histories (cache flags read off the objects' private attributes)",
                    "harness/props/c06.py, c06_geom.py (generators, brute-force oracle, Coq term printer)",
                    "IEEE-754 arithmetic of numpy (rounded; model exact over Q); libm cos / sin taken as exact rationals"]
     mod = __import__("props.c06", fromlist=["x"])
     try:
-        ctx.build_props()
+        ctx.build_props(extra_targets=["Corr/C06Cache.vo"])
         if ctx.tier == "thorough":
             ctx.coqchk()
         n = ctx.n(600, 9000)
@@ -931,6 +979,7 @@ def run(ctx):
         # correspondence in batches (bounded memory / file sizes)
         for s in range(0, len(cases), 1300):
             corr(ctx, cases[s:s + 1300])
+        corr_cache(ctx, cases)
         if (ctx.proof_breaks or ctx.corr_breaks) and not ctx.failures:
             ctx.log(f"proof/correspondence broke ({len(ctx.proof_breaks)}/{len(ctx.corr_breaks)}); widening the search")
             run_oracle(gen(ctx.rng, n * 4))
